@@ -223,6 +223,7 @@ func runStore(c StoreCase) (o hx.Outcome) {
 		os.MkdirAll(work, 0o755)
 		store = c.prepare(work, plain, ids)
 		injSys, injWhen, expectKill = "", 0, false
+		var prRef []string // call sequence of the undisturbed run under the limit
 		switch c.Mode {
 		case "kill":
 			if len(d.Threads) > 0 {
@@ -243,6 +244,7 @@ func runStore(c StoreCase) (o hx.Outcome) {
 			pr := runChild(c.job(store, fsize), work, "", 0)
 			if len(pr.Trace.Threads) > 0 {
 				t0 := pr.Trace.Threads[0]
+				prRef = t0.Calls
 				if c.Sys == "" && t0.EFBIGOrd > 0 {
 					injSys, injWhen = "write", t0.EFBIGOrd
 					expectKill = true
@@ -256,7 +258,26 @@ func runStore(c StoreCase) (o hx.Outcome) {
 			store = c.prepare(work, plain, ids)
 		}
 		res = runChild(c.job(store, fsize), work, injSys, injWhen)
-		if !multi && (expectKill != res.Trace.Killed || (expectKill && (res.Trace.KilledIn == nil || res.Trace.KilledIn.Last != injSys || res.Trace.KilledIn.LastOrd != injWhen))) {
+		// single writer: the run must have followed the reference sequence of calls up to the kill,
+		// otherwise "the c-th call of s" is not the step the enumeration thinks it is
+		off := false
+		if multi || (c.Mode != "kill" && c.Mode != "none" && prRef == nil) {
+			// nothing to compare with
+		} else if len(res.Trace.Threads) == 1 {
+			refCalls := d.Threads[0].Calls
+			if prRef != nil {
+				refCalls = prRef
+			}
+			got := res.Trace.Threads[0].Calls
+			for i := range got {
+				if i >= len(refCalls) || got[i] != refCalls[i] {
+					off = true
+				}
+			}
+		} else {
+			off = true
+		}
+		if !multi && (off || expectKill != res.Trace.Killed || (expectKill && (res.Trace.KilledIn == nil || res.Trace.KilledIn.Last != injSys || res.Trace.KilledIn.LastOrd != injWhen))) {
 			if attempt == 0 { // counts moved? learn them again, once
 				d = c.dry(plain, ids, true)
 				continue
@@ -278,12 +299,10 @@ func runStore(c StoreCase) (o hx.Outcome) {
 			inWindow = true
 		}
 	}
-	cut := false // a write was really cut at 0 < b < len
-	if fsize >= 0 {
-		for ci := range written {
-			if fsize > 0 && d.StoredLen[ci] > fsize {
-				cut = true
-			}
+	cut := false // a write was really cut at 0 < b < len in this run (seen in the log)
+	for _, tt := range res.Trace.Threads {
+		if fsize > 0 && tt.Short {
+			cut = true
 		}
 	}
 	totalPoints := 0
@@ -639,10 +658,13 @@ func enumContents() []StoreCase {
 	q := []StoreCase{
 		{Compressed: false, Chunks: []ChunkSpec{{Kind: "rand", Len: 700, Seed: 11}}, Writers: [][]int{{0}}, Keep: "all"},
 		{Compressed: true, Chunks: []ChunkSpec{{Kind: "text", Len: 3000, Seed: 12}}, Writers: [][]int{{0}}, Keep: "none"},
+		{Compressed: false, Chunks: []ChunkSpec{{Kind: "rand", Len: 9, Seed: 16}}, Writers: [][]int{{0}}, Keep: "alt"}, // short: every b in 0..len
 		{Compressed: false, Chunks: []ChunkSpec{{Kind: "rand", Len: 100, Seed: 13}, {Kind: "text", Len: 4097, Seed: 14}}, Writers: [][]int{{0, 1, 0}}, Keep: "alt"},
 		{Compressed: true, Chunks: []ChunkSpec{{Kind: "rand", Len: 2000, Seed: 15}, {Kind: "zero", Len: 65536}}, Writers: [][]int{{0, 1}}, Pre: []int{0}, PreDir: []int{1}, Keep: "all"},
 	}
 	th := []StoreCase{
+		{Compressed: true, Chunks: []ChunkSpec{{Kind: "text", Len: 150, Seed: 17}}, Writers: [][]int{{0}}, Keep: "all"}, // stored length <= 128: every b
+		{Compressed: false, Chunks: []ChunkSpec{{Kind: "rand", Len: 100, Seed: 18}}, Writers: [][]int{{0}}, Keep: "none"},
 		{Compressed: false, Chunks: []ChunkSpec{{Kind: "rand", Len: 1, Seed: 1}}, Writers: [][]int{{0}}, Keep: "all"},
 		{Compressed: true, Chunks: []ChunkSpec{{Kind: "rand", Len: 1, Seed: 2}}, Writers: [][]int{{0}}, Keep: "all"},
 		{Compressed: false, Chunks: []ChunkSpec{{Kind: "rand", Len: 1, Seed: 3}, {Kind: "rand", Len: 262144, Seed: 4}, {Kind: "text", Len: 17, Seed: 5}}, Writers: [][]int{{0, 1, 2, 1}}, Pre: []int{2}, Keep: "none"},
@@ -797,7 +819,7 @@ func TestEnum(t *testing.T) {
 		}
 		hx.AddNote("enumerated_store_crash_points", points)
 		d := sc.normalise().dry(nil, nil, false)
-		hx.Exhaustive(fmt.Sprintf("store content %d (%d StoreChunk calls, single writer): every (syscall,count) of the writer thread [%s] + write cuts at boundary b, each with and without kill",
+		hx.Exhaustive(fmt.Sprintf("store content %d (%d StoreChunk calls, single writer): every (syscall,count) of the writer thread [%s] + write cuts at boundary b (every b for short chunks), each with and without kill, + every step of the error path under one cut",
 			i, len(sc.Writers[0]), strings.Join(d.Threads[0].Calls, " ")))
 	}
 	var mm []Case
